@@ -222,6 +222,31 @@ pub fn run_c06(r: &mut Report) {
             }
         }
     }
+    // expiry is checked for every shape of layout: no steps at all, inspections only, one step, and as a delegated sub-layout without steps
+    for shape in ["no-steps", "inspection-only", "one-step", "stepless-sub-layout"] {
+        for days in [-1i64, -400, 30] {
+            let _g = crate::c08::CWD_LOCK.lock().unwrap();
+            let work = tmpdir(); let d = tmpdir();
+            let ka = key(2);
+            let insp = in_toto::models::inspection::Inspection::new("insp").run(cmd(&["true"])).expected_materials(allow_all()).expected_products(allow_all());
+            let lay = match shape {
+                "no-steps" => signed_layout(&layout(vec![], vec![], &[], days), &[&o1]),
+                "inspection-only" => signed_layout(&layout(vec![], vec![insp], &[], days), &[&o1]),
+                "one-step" => { write_link(d.path(), "a", ka.key_id(), &signed_link(&link("a", &[], &[("x", 1)]), &[&ka])); signed_layout(&layout(vec![step("a", 1, &[&ka], allow_all(), allow_all())], vec![], &[&ka], days), &[&o1]) }
+                _ => { let sub = signed_layout(&layout(vec![], vec![], &[], days), &[&ka]);
+                       write_link(d.path(), "a", ka.key_id(), &sub);
+                       std::fs::create_dir_all(d.path().join(format!("a.{}", ka.key_id().prefix()))).unwrap();
+                       signed_layout(&layout(vec![step("a", 1, &[&ka], allow_all(), allow_all())], vec![], &[&ka], 30), &[&o1]) }
+            };
+            let old = std::env::current_dir().unwrap();
+            std::env::set_current_dir(work.path()).unwrap();
+            let res = no_panic(|| in_toto_verify(&lay, owner_keys(&[&o1]), d.path().to_str().unwrap(), None));
+            std::env::set_current_dir(old).unwrap();
+            let expect = days > 0;
+            r.case("expiry-for-every-layout-shape", json!({"shape": shape, "expires_in_days": days}), if expect { "Ok" } else { "Err" },
+                   match &res { Ok(v) => verdict(v), Err(p) => format!("panic: {}", p) }, matches!(&res, Ok(v) if v.is_ok() == expect));
+        }
+    }
     // the clock is read at every verification: a layout that expires between two calls is rejected by the later one,
     // whatever the earlier calls in this process returned (a failed one, a successful one)
     for earlier in ["failed-verification", "successful-verification", "both"] {
